@@ -1,4 +1,5 @@
 from props_common import TRUSTED_COMMON, VIEW_RULE, views_harness
+import value_common as _vc
 
 PROP = {
     "lean_targets": ["MultiProofs.C11"],
@@ -15,9 +16,13 @@ PROP = {
         views_harness(["zero", "rebased"], 3200, 200000, name="views_raw", flags=["-O1", "-g", "-DPTR_KIND=0"]),
         views_harness(["zero", "rebased"], 3200, 200000, name="views_offsetptr", flags=["-O1", "-g", "-DPTR_KIND=1"]),
         views_harness(["zero", "rebased"], 3200, 200000, name="views_checkedptr", flags=["-O1", "-g", "-DPTR_KIND=2"]),
+        # ---- owning arrays (value worker): the C04/C06 histories of harness/value.cpp over multi::array<T, D, fancy_alloc<T>>, whose
+        # ---- allocator hands out fancy::xptr<T> offsets into one arena; oracle = mmdrv_value, answers must equal the raw build's
+        _vc.value_harness(["int", "str+full", "int+c06+full", "str+c06"], 800, 64000, name="value_fancy1", extra_flags=["-DPTR_KIND=1"], opt=["-O0"]),
+        _vc.value_harness(["int", "str+full", "int+c06+full", "str+c06"], 800, 64000, name="value_fancy2", extra_flags=["-DPTR_KIND=2"], opt=["-O0"]),
     ],
     "trusted_base": TRUSTED_COMMON + ["harness/common/fancy_ptr.hpp: the offset pointer (no conversion to/from T*) and its bounds-tracking variant"],
-    "assumptions": ["the programs replayed over the three pointer types are those of C01/C02/C19 (views, iterators, elements ranges); owning arrays with fancy allocator pointers and C04-C07 programs are not yet replayed over fancy pointers",
+    "assumptions": ["the programs replayed over the three pointer types are those of C01/C02/C19 (views, iterators, elements ranges) and, for owning arrays multi::array<T, D, fancy_alloc<T>> (allocator pointer = offset pointer; live blocks registered with the tracking pointer), the C04/C06 histories of harness/value.cpp (value_fancy1 / value_fancy2; Array.decay() is routed through the view's decay(), see finding C11:decay:CRASH)",
                     "pointer arithmetic beyond one-past-the-end (inherent in end() of strided views) is not counted; only dereferences are bounds-checked"],
     "rule": VIEW_RULE + "; each program runs over raw T*, a minimal offset pointer and a bounds-tracking pointer; all three answer streams must equal the model's stream; the tracking pointer reports every dereference outside the root's storage",
     "level_text": "Theorems: every view operation, begin()/end() iterator and elements() position is affine in the base pointer (translation of the base translates every computed pointer and changes nothing else), so interpreting offsets in any lawful pointer type commutes with all operations, and with C01.reachable_in_bounds every dereference stays inside the storage. That the C++ templates use only the pointer's own arithmetic is validated by replaying the programs over a minimal offset pointer and a bounds-tracking pointer against the same model stream.",
